@@ -330,8 +330,9 @@ def _walk_stmts(X, body, var: str) -> list[str]:
                 out.append(f".ifNotSeen {_lean_wlist(_walk_stmts(X, st.body, var))}")
             else:
                 raise E(f"_not_ignored_paths: unrecognised condition `{t}`")
-        elif isinstance(st, ast.Assign) and _u(st) == f"files_in_dir = {var}.iterdir()":
-            continue   # folded into `.recurse` (checked there)
+        elif isinstance(st, ast.Assign) and _u(st) in (f"files_in_dir = {var}.iterdir()", f"files_in_dir = sorted({var}.iterdir())",
+                                                       f"files_in_dir = list({var}.iterdir())"):
+            continue   # folded into `.recurse` (checked there); the order of a directory listing is not modelled
         elif isinstance(st, ast.Expr) and isinstance(st.value, ast.YieldFrom):
             c = _u(st.value.value)
             if c not in ("_not_ignored_paths(files_in_dir, session, seen)", "_not_ignored_paths(files_in_dir, session)"):
@@ -644,7 +645,22 @@ def _short_filter(X):
                     else:
                         raise E(f"shortest names: unrecognised filter `{uq}`")
     if conds is None:
-        raise E("shortest names: id_to_task is not a dict comprehension over tasks")
+        # the same written as a loop: `for task in tasks: if <conds>: id_to_task[task.name] = task`
+        for n in ast.walk(fn):
+            if isinstance(n, ast.For) and _u(n.iter) == "tasks" and _u(n.target) == "task" and len(n.body) == 1 and isinstance(n.body[0], ast.If) \
+                    and [_u(x) for x in n.body[0].body] == ["id_to_task[task.name] = task"] and not n.body[0].orelse:
+                c = n.body[0].test
+                conds = []
+                for q in (c.values if isinstance(c, ast.BoolOp) and isinstance(c.op, ast.And) else [c]):
+                    uq = _u(q)
+                    if uq == "isinstance(task, Task)":
+                        conds.append(".isTask")
+                    elif uq == "task.name == task.path.as_posix() + '::' + task.base_name":
+                        conds.append(".hasFullName")
+                    else:
+                        raise E(f"shortest names: unrecognised filter `{uq}`")
+    if conds is None:
+        raise E("shortest names: id_to_task is neither a dict comprehension nor a loop over tasks")
     src = _u(fn)
     for needle in ("'/'.join(task.path.parts[-n_parts:]) + '::' + task.base_name", "duplicates = find_duplicates(dupl_id_to_short_id.values())",
                    "if short_id not in duplicates:", "id_to_short_id[id_] = task.name"):
